@@ -30,16 +30,28 @@ def run(scratch, checks, tier='quick', timeout=1800):
     # run from a private copy so that a concurrent build cannot swap the binary under us
     exe2 = os.path.join(scratch, 'bounded-bin')
     shutil.copy2(exe, exe2)
-    r = subprocess.run([exe2, ','.join(checks), tier], capture_output=True, text=True, timeout=timeout)
     results = {}
-    for line in r.stdout.splitlines():
-        line = line.strip()
-        if line.startswith('{'):
-            try:
-                j = json.loads(line)
-                results[j['check']] = j
-            except json.JSONDecodeError:
-                pass
-    crashed = r.returncode not in (0, 1) or any(c not in results for c in checks)
+    crashed, stderr = False, ''
+    per_check_timeout = 240 if tier == 'quick' else 1200
+    for c in checks:
+        try:
+            r = subprocess.run([exe2, c, tier], capture_output=True, text=True, timeout=per_check_timeout)
+        except subprocess.TimeoutExpired:
+            # the harness calls the real code on finite inputs with finite scripted sources: not terminating IS a failure
+            results[c] = {'check': c, 'cases': 0, 'distinct': 0, 'samples': [],
+                          'failure': f'the real code did not terminate: bounded check {c} still running after {per_check_timeout} s '
+                                     '(each case is a finite input over a finite scripted source; a hang violates totality)'}
+            continue
+        for line in r.stdout.splitlines():
+            line = line.strip()
+            if line.startswith('{'):
+                try:
+                    j = json.loads(line)
+                    results[j['check']] = j
+                except json.JSONDecodeError:
+                    pass
+        if r.returncode not in (0, 1) or c not in results:
+            crashed = True
+            stderr += r.stderr[-400:]
     return {'ok': not crashed, 'build_error': None, 'results': results, 'wall_s': round(time.time() - t0, 2),
-            'cmd': f'bounded {",".join(checks)} {tier}', 'stderr': r.stderr[-800:] if crashed else ''}
+            'cmd': f'bounded {",".join(checks)} {tier}', 'stderr': stderr}
